@@ -8,9 +8,11 @@ import (
 	"crypto/sha256"
 	"crypto/x509"
 	"encoding/json"
+	"encoding/pem"
 	"fmt"
 	"github.com/google/gce-tcb-verifier/keys"
 	"hash/fnv"
+	"io"
 	"math/rand"
 	"os"
 	"path/filepath"
@@ -21,6 +23,7 @@ import (
 
 	"github.com/google/gce-tcb-verifier/endorse"
 	gtb "github.com/google/gce-tcb-verifier/gcetcbendorsement"
+	gcmd "github.com/google/gce-tcb-verifier/gcetcbendorsement/cmd"
 	epb "github.com/google/gce-tcb-verifier/proto/endorsement"
 	"github.com/google/gce-tcb-verifier/sev"
 	"github.com/google/gce-tcb-verifier/tdx"
@@ -31,6 +34,7 @@ import (
 	fmpb "google.golang.org/protobuf/types/known/fieldmaskpb"
 
 	"verifharness/fx"
+	"verifharness/rp"
 	"verifharness/vk"
 )
 
@@ -509,7 +513,7 @@ func RunC03(run *vk.Run) {
 			clspec uint64
 			at     time.Time
 		}
-		steps := []rerun{{"first run", a1, false, 4, 100, Tn(1)}, {"another VMSA count and changelist", a1, false, 8, 200, Tn(2)}, {"after a rotation", a1, true, 8, 200, Tn(4)},
+		steps := []rerun{{"first run, every VMSA count", a1, false, 0, 100, Tn(1)}, {"another VMSA count and changelist", a1, false, 8, 200, Tn(2)}, {"after a rotation", a1, true, 8, 200, Tn(4)},
 			{"by a second authority", a2, false, 8, 200, Tn(5)}, {"by the first authority again", a1, false, 2, 300, Tn(6)}}
 		for _, st := range steps {
 			if st.rotate {
@@ -541,14 +545,99 @@ func RunC03(run *vk.Run) {
 			for _, m := range verifyDoc(d, root) {
 				viol("issued-does-not-verify:rerun", fmt.Sprintf("%s: %s", d.req, m), nil)
 			}
+			// the documented re-verification with external tools, through the command line and into the
+			// same three files as for the previous release: payload, signature, certificate
+			{
+				parts := filepath.Join(dir, "parts")
+				os.MkdirAll(parts, 0o755)
+				in := filepath.Join(dir, "out", "rc.binarypb")
+				ok := true
+				for _, sub := range [][]string{{"payload", "payload.bin"}, {"signature", "signature.bin"}, {"mask", "cert.der", "--path", "cert"}} {
+					rootCmd := gcmd.MakeRoot(gcmd.ContextWithBackend(context.Background(), &gcmd.Backend{IO: gcmd.OSIO{}}))
+					rootCmd.SetArgs(append([]string{"inspect", sub[0], in, "--out", filepath.Join(parts, sub[1]), "--bytesform", "bin"}, sub[2:]...))
+					rootCmd.SetOut(io.Discard)
+					rootCmd.SetErr(io.Discard)
+					rootCmd.SilenceErrors, rootCmd.SilenceUsage = true, true
+					if xerr := rootCmd.Execute(); xerr != nil {
+						viol("inspect-fails:rerun", fmt.Sprintf("%s: `inspect %s --out` fails: %v", d.req, sub[0], xerr), nil)
+						ok = false
+					}
+				}
+				if ok {
+					payload, _ := os.ReadFile(filepath.Join(parts, "payload.bin"))
+					sig, _ := os.ReadFile(filepath.Join(parts, "signature.bin"))
+					cder, _ := os.ReadFile(filepath.Join(parts, "cert.der"))
+					ic, perr := x509.ParseCertificate(cder)
+					good := false
+					if perr == nil {
+						if pub, isRSA := ic.PublicKey.(*rsa.PublicKey); isRSA {
+							h := sha256.Sum256(payload)
+							good = rsa.VerifyPSS(pub, crypto.SHA256, h[:], sig, &rsa.PSSOptions{SaltLength: 32, Hash: crypto.SHA256}) == nil
+						}
+					}
+					if !good {
+						viol("emitted-parts-do-not-verify:rerun", fmt.Sprintf("%s: payload (%d bytes), signature (%d) and certificate (%d, parse error %v) written by `inspect ... --out` into the files used for the previous release do not pass the independent RSA-PSS check", d.req, len(payload), len(sig), len(cder), perr), nil)
+					}
+				}
+			}
 			en, g := &epb.VMLaunchEndorsement{}, &epb.VMGoldenMeasurement{}
 			if proto.Unmarshal(b, en) == nil && proto.Unmarshal(en.SerializedUefiGolden, g) == nil {
 				_, listed := g.GetSevSnp().GetMeasurements()[st.vmsas]
-				if !g.GetTimestamp().AsTime().Equal(st.at) || g.GetClSpec() != st.clspec || !listed || len(g.GetSevSnp().GetMeasurements()) != 1 {
+				wantN := 1
+				if st.vmsas == 0 {
+					listed, wantN = true, len(sev.AllSupportedVmsaCounts)
+				}
+				if !g.GetTimestamp().AsTime().Equal(st.at) || g.GetClSpec() != st.clspec || !listed || len(g.GetSevSnp().GetMeasurements()) != wantN {
 					viol("written-file-is-not-this-runs-document", fmt.Sprintf("%s: the run reported success, but the file holds a document dated %s with changelist %d listing counts %v", d.req,
 						ts(g.GetTimestamp().AsTime()), g.GetClSpec(), keysOf(g.GetSevSnp().GetMeasurements())), nil)
 				}
 			}
+		}
+	}
+	// the relying party's command line takes the authority's root certificate as a file, DER (as the
+	// production root is published) or PEM; a certificate is bytes: one whose last signature byte happens
+	// to be a white-space character (about one root in 32) is as good as any other
+	{
+		var lucky *Authority
+		var luckyRoot *x509.Certificate
+		var lmu sync.Mutex
+		for batch := 0; batch < 12 && lucky == nil; batch++ {
+			parallel(32, func(int) {
+				a, err := NewAuthority(Combo{"memkm", "memca"})
+				if err != nil {
+					return
+				}
+				if err := a.Exec(&Tap{}, "bootstrap", "--timestamp", ts(T0)); err != nil {
+					a.Close()
+					return
+				}
+				r, err := RootOf(a)
+				lmu.Lock()
+				defer lmu.Unlock()
+				if err == nil && lucky == nil && strings.ContainsRune("\t\n\v\f\r \x85\xa0", rune(r.Raw[len(r.Raw)-1])) {
+					lucky, luckyRoot = a, r
+					return
+				}
+				a.Close()
+			})
+		}
+		if lucky != nil {
+			defer lucky.Close()
+			d, err := endorseReal(lucky, rand.New(rand.NewSource(run.Seed)), Tn(1))
+			if err != nil {
+				run.Violation("endorse-fails", "the endorse pipeline fails on a healthy authority: "+err.Error(), nil)
+			} else {
+				pemRoot := pem.EncodeToMemory(&pem.Block{Type: "CERTIFICATE", Bytes: luckyRoot.Raw})
+				for form, rootFile := range map[string][]byte{"DER": luckyRoot.Raw, "PEM": pemRoot} {
+					_, cerr := rp.RunCLI(map[string][]byte{"endo.bin": d.bytes, "root.crt": rootFile}, Tn(2), nil, "verify", "endo.bin", "--root_cert", "root.crt")
+					if cerr != nil {
+						run.Violation("issued-does-not-verify:command-line-root-file", fmt.Sprintf("`verify ENDORSEMENT --root_cert FILE` rejects what the pipeline wrote, with the authority's own root given as %s (a root whose encoding ends in byte %#x): %v", form, luckyRoot.Raw[len(luckyRoot.Raw)-1], cerr), nil)
+					}
+					run.Case("cli-root-file:"+form, true)
+				}
+			}
+		} else {
+			run.Extra["root_ending_in_whitespace"] = "none among 384 bootstraps"
 		}
 	}
 	// a rotation that lands while an endorsement is being produced (in-memory authority, whose
